@@ -27,8 +27,9 @@ UNIT_KIND = {   # harness kind -> (model kind code, site id)
     "generatePolicies": (7, "virtualServerConfigurator.generatePolicies#0"),
     # no map range of its own in the tree as it stands (labels.Set.String sorts): a pseudo-site, deterministic by default
     "GenerateEndpointsKey": (8, "GenerateEndpointsKey"),
+    "controller.Endpoints": (9, "getIPAddressesFromEndpoints"),
 }
-PSEUDO_SITES = {"GenerateEndpointsKey"}
+PSEUDO_SITES = {"GenerateEndpointsKey", "getIPAddressesFromEndpoints"}
 # unit kinds that project the order-sensitive half of a site the table marks "off the generation path"
 OFFPATH_PROJECTION = {"filterMasterAnnotations", "filterMinionAnnotations"}
 
@@ -429,7 +430,8 @@ def check(run):
         run.sample(slim(c))
     run.cov["processes"] = PROCS
     run.cov["rule"] = ("render: 25 fixed fixtures (upstreams selected by 2-4 subselector labels, endpoint sets keyed by GenerateEndpointsKey as the controller keys them, and "
-                       "`vsctl` fixtures that go through the controller's real createVirtualServerEx over stores of Services / EndpointSlices / labelled Pods; "
+                       "`vsctl` / `ingctl` / `tsctl` fixtures that go through the controller's real createVirtualServerEx / createIngressEx / createTransportServerEx over stores of "
+                       "Services, labelled Pods and THREE EndpointSlices per Service (main, a mirror without targetRef, one naming other pods: podEndpoints that share an address); "
                        "API-key Secret with 5 and 12 keys; 6 Secrets whose client ids collide under case folding / punctuation trimming / "
                        "separator folding / numeric padding; API-key policies in spec + routes + VirtualServerRoute subroutes; tiered rate-limit policies with 3-4 JWT claims in "
                        "one and two scopes; header lists, 5 upstreams x 4 endpoints, splits, matches; Ingress with 12+ annotations, 5 services, health checks; mergeable Ingress "
